@@ -6,6 +6,7 @@ import (
 	"encoding/json"
 	"flag"
 	"fmt"
+	"go/types"
 	"os"
 	"path/filepath"
 	"sort"
@@ -73,7 +74,11 @@ func selected(o *Oblig, pu PropUnit, prop string) bool {
 				return true
 			}
 		default:
-			if o.Kind == s {
+			if strings.HasPrefix(s, "name:") {
+				if strings.Contains(o.Name, strings.TrimPrefix(s, "name:")) {
+					return true
+				}
+			} else if o.Kind == s {
 				return true
 			}
 		}
@@ -422,7 +427,14 @@ func isLocalKey(env *Env, k string) bool {
 	if strings.Contains(tn, "/") {
 		return false
 	}
-	return env.pkg.Types.Scope().Lookup(tn) != nil
+	obj := env.pkg.Types.Scope().Lookup(tn)
+	if obj == nil {
+		return false
+	}
+	if _, isIface := obj.Type().Underlying().(*types.Interface); isIface {
+		return false
+	}
+	return true
 }
 
 func obligMatches(pattern, name string) bool {
